@@ -9,6 +9,7 @@ import (
 	"github.com/bbva/qed/balloon"
 	"github.com/bbva/qed/consensus"
 	"github.com/bbva/qed/crypto/hashing"
+	"github.com/hashicorp/raft"
 	"qedverif/cq"
 )
 
@@ -22,6 +23,7 @@ type cluster struct {
 	trail   uint64
 	acked   []*balloon.Snapshot // by version, as returned by the leader
 	events  [][]byte
+	indet   bool // a proposal ended with an error that does not tell whether it was committed
 }
 
 func (c *cluster) start(i int, bootstrap bool) error {
@@ -104,6 +106,12 @@ func (c *cluster) add(evs [][]byte) ([]*balloon.Snapshot, error) {
 			return snaps, nil
 		}
 		last = err
+		if err != raft.ErrNotLeader {
+			// leadership lost / timeout: the entry may or may not be committed later; the harness can no longer tell which
+			// version the next event gets, so the scenario stops adding here (only the acknowledged prefix is checked)
+			c.indet = true
+			return nil, err
+		}
 		time.Sleep(100 * time.Millisecond)
 	}
 	return nil, last
@@ -112,11 +120,33 @@ func (c *cluster) add(evs [][]byte) ([]*balloon.Snapshot, error) {
 // quiesce waits until every live node has applied what the leader has applied.
 func (c *cluster) quiesce() bool {
 	want := uint64(len(c.acked))
+	stable := 0
 	for t := 0; t < 400; t++ {
 		ok := true
-		for _, n := range c.nodes {
-			if n != nil && n.VBalloonVersion() != want {
-				ok = false
+		if c.indet {
+			// all live nodes at the same version >= the acknowledged one, unchanged for a second
+			var vs []uint64
+			for _, n := range c.nodes {
+				if n != nil {
+					vs = append(vs, n.VBalloonVersion())
+				}
+			}
+			for _, x := range vs {
+				if x != vs[0] || x < want {
+					ok = false
+				}
+			}
+			if ok {
+				stable++
+			} else {
+				stable = 0
+			}
+			ok = stable >= 20
+		} else {
+			for _, n := range c.nodes {
+				if n != nil && n.VBalloonVersion() != want {
+					ok = false
+				}
 			}
 		}
 		if ok {
@@ -126,6 +156,17 @@ func (c *cluster) quiesce() bool {
 		time.Sleep(50 * time.Millisecond)
 	}
 	return false
+}
+
+func (c *cluster) versions() string {
+	var vs []string
+	for i, n := range c.nodes {
+		if n != nil {
+			idx, ver := n.VState()
+			vs = append(vs, fmt.Sprintf("%d:(index %d, fsm version %d, balloon %d, leader=%v)", i, idx, ver, n.VBalloonVersion(), n.IsLeader()))
+		}
+	}
+	return fmt.Sprintf("acknowledged %d events; nodes %v", len(c.acked), vs)
 }
 
 // checkReplicas: same state, same tables, proofs of every replica verify against the leader's snapshots.
@@ -148,6 +189,11 @@ func (c *cluster) checkReplicas(out *cq.Out, rng *cq.Rng, prefix string, desc ma
 			out.Violate(prefix+":replica-tables-differ", fmt.Sprintf("at a quiescent point the stored tables of the replicas differ (states %v)", states), desc)
 			break
 		}
+	}
+	if c.indet {
+		// the log may hold entries the harness has no snapshot for: the hyper digest of the current version is unknown
+		out.Count("replica_checks_tables_only", 1)
+		return
 	}
 	cur := uint64(len(c.acked) - 1)
 	for i, n := range c.nodes {
@@ -188,7 +234,7 @@ func (c *cluster) checkReplicas(out *cq.Out, rng *cq.Rng, prefix string, desc ma
 		// the current version reported equals accepted - 1
 		d := hashing.NewSha256Hasher().Do(c.events[0])
 		pq, qmsg := cq.Catch(func() {
-			if p, err := n.QueryDigestMembership(d); err == nil && p.CurrentVersion != cur {
+			if p, err := n.QueryDigestMembership(d); err == nil && p.CurrentVersion != cur && !c.indet {
 				out.Violate(prefix+":current-version", fmt.Sprintf("node %d reports current version %d, %d events were accepted", i, p.CurrentVersion, len(c.acked)), desc)
 			}
 		})
@@ -255,6 +301,10 @@ func clusterCmd(out *cq.Out, seed uint64, tier string) {
 				if err != nil {
 					hist = append(hist, "add failed: "+err.Error())
 					ev -= k
+					if c.indet {
+						out.Count("cluster_indeterminate_add", 1)
+						st = steps
+					}
 					continue
 				}
 				c.checkDense(out, snaps, evs, before, desc)
@@ -277,6 +327,20 @@ func clusterCmd(out *cq.Out, seed uint64, tier string) {
 				if l >= 0 {
 					if err := c.nodes[l].VLeaveLeadership(); err == nil {
 						hist = append(hist, fmt.Sprintf("leadership transfer from %d", l))
+						// let the hand-over settle (the old leader steps down, another one is elected)
+						for w := 0; w < 100; w++ {
+							settled := !c.nodes[l].IsLeader()
+							other := false
+							for j, m := range c.nodes {
+								if j != l && m != nil && m.IsLeader() {
+									other = true
+								}
+							}
+							if settled && other {
+								break
+							}
+							time.Sleep(50 * time.Millisecond)
+						}
 					}
 				}
 			default:
@@ -284,7 +348,7 @@ func clusterCmd(out *cq.Out, seed uint64, tier string) {
 					c.checkReplicas(out, rng, "C06", desc)
 					hist = append(hist, "check")
 				} else {
-					out.Violate("C06:no-quiescence", "the live replicas did not converge to the leader's version within 20 s", desc)
+					out.Violate("C06:no-quiescence", "the live replicas did not converge to the leader's version within 20 s: "+c.versions(), desc)
 				}
 			}
 		}
@@ -295,7 +359,7 @@ func clusterCmd(out *cq.Out, seed uint64, tier string) {
 		if c.quiesce() {
 			c.checkReplicas(out, rng, "C06", desc)
 		} else {
-			out.Violate("C06:no-quiescence", "the replicas did not converge to the leader's version within 20 s at the end of the scenario", desc)
+			out.Violate("C06:no-quiescence", "the replicas did not converge to the leader's version within 20 s at the end of the scenario: "+c.versions(), desc)
 		}
 		out.Count("cluster_scenarios", 1)
 		out.Count("cluster_events", len(c.acked))
